@@ -242,6 +242,8 @@ type seqPol struct {
 	IgnoreCC, ForceDef bool
 	Def                time.Duration
 	Changed            bool
+	Retry416           bool
+	RetryChanged       bool // retry_on_range_416 was set by an update while the proxy was running
 }
 
 func (sp *seqPol) apply(doc string) {
@@ -250,7 +252,13 @@ func (sp *seqPol) apply(doc string) {
 		return
 	}
 	px, _ := m["proxy"].(map[string]any)
-	cp, _ := px["cache_policy"].(map[string]any)
+	if v, ok := px["retry_on_range_416"].(bool); ok {
+		sp.Retry416, sp.RetryChanged = v, true
+	}
+	cp, ok := px["cache_policy"].(map[string]any)
+	if !ok {
+		return
+	}
 	if v, ok := cp["ignore_cache_control"].(bool); ok {
 		sp.IgnoreCC = v
 	}
@@ -267,7 +275,7 @@ func (sp *seqPol) apply(doc string) {
 
 func judgeSequential(w *proxyWorld, res *Result) {
 	p0 := w.p
-	pol := &seqPol{IgnoreCC: p0.IgnoreCC, ForceDef: p0.ForceDef, Def: time.Duration(p0.DefaultAgeS) * time.Second}
+	pol := &seqPol{IgnoreCC: p0.IgnoreCC, ForceDef: p0.ForceDef, Def: time.Duration(p0.DefaultAgeS) * time.Second, Retry416: p0.Retry416}
 	// p mirrors the plan with the policy currently in force (helpers take a *ProxyPlan)
 	pc := *p0
 	p := &pc
@@ -293,7 +301,13 @@ func judgeSequential(w *proxyWorld, res *Result) {
 				res.violate("C18.b", "valid-update-rejected: "+updateClass(ex.Req.Cfg), "update %s: %s", ex.Req.Cfg, ex.CfgErr)
 				continue
 			}
+			wasChanged := pol.Changed
+			pol.Changed = false
 			pol.apply(ex.Req.Cfg)
+			if !pol.Changed {
+				pol.Changed = wasChanged
+				continue // not a cache-policy change: the stored entries keep their meaning
+			}
 			p.IgnoreCC, p.ForceDef, p.DefaultAgeS = pol.IgnoreCC, pol.ForceDef, int64(pol.Def/time.Second)
 			def = pol.Def
 			pd = planDesc(p) + " (policy changed at run time)"
@@ -334,7 +348,35 @@ func judgeSequential(w *proxyWorld, res *Result) {
 		if ex.Status == 304 && !clientSentConditional(ex) {
 			res.violate("C06.e", "unsolicited-304", "%s sent no conditional header but received 304 (without a body); origin requests for it: %s [%s]", desc, originSummary(cons), pd)
 		}
-		if ex.Method != "GET" || ex.Req.Range != "" {
+		if ex.Method == "GET" && ex.Req.Range != "" {
+			// a Range request: what it is answered with is C07's business. Here: what the origin was
+			// asked, that the client gets the origin's last answer, and what is stored afterwards.
+			if len(cons) > 0 {
+				first, last := cons[0], cons[len(cons)-1]
+				if first.Status == 416 && first.Hdr.Get("Range") != "" && pol.RetryChanged {
+					retried := len(cons) > 1 && cons[1].Hdr.Get("Range") == ""
+					if retried != pol.Retry416 {
+						res.violate("C19.c", "retry-switch-not-followed", "%s: retry_on_range_416 was set to %v by an accepted update, the origin answered 416 and the proxy %s [origin requests: %s] [%s]", desc, pol.Retry416, map[bool]string{true: "asked again without Range", false: "did not ask again"}[retried], originSummary(cons), pd)
+					}
+				}
+				if len(cons) > 1 && last.Hdr.Get("Range") == "" && (ex.Status != last.Status || !bytes.Equal(ex.Body, last.RespBody)) {
+					res.violate("C08.a", "retried-answer-not-relayed", "%s: the origin answered 416 and then %d (%d bytes) to the request repeated without Range; the client received %d with %d body bytes [%s]", desc, last.Status, len(last.RespBody), ex.Status, len(ex.Body), pd)
+				}
+				if len(cons) == 1 && first.Status == 416 && (ex.Status != 416 || !bytes.Equal(ex.Body, first.RespBody)) {
+					res.violate("C08.a", "origin-416-not-relayed", "%s: the origin answered 416 (%d bytes), the client received %d with %d body bytes [%s]", desc, len(first.RespBody), ex.Status, len(ex.Body), pd)
+				}
+				for _, c := range cons {
+					if c.Status == 200 && c.Method == "GET" && c.Hdr.Get("Range") == "" {
+						st.alts = nil // a plain 200: stored (or not) like after any miss
+					}
+					seqAbsorb(w, p, st, c, ex, def)
+				}
+				st.present = inert && p.MaxSize >= 1<<30
+				res.Probes["range_request_reached_origin"]++
+			}
+			continue
+		}
+		if ex.Method != "GET" {
 			if len(cons) == 0 && ex.Status < 500 {
 				res.violate("C04.a", "non-GET-served-without-origin", "%s was answered %d without contacting the origin [%s]", desc, ex.Status, pd)
 			}
@@ -415,11 +457,12 @@ func judgeSequential(w *proxyWorld, res *Result) {
 				}
 			}
 		}
-		// C06.b: client validators never reach the origin
-		for _, o := range cons {
-			if o.Marker {
-				res.violate("C06.b", "client-validator-forwarded", "origin request #%d for %s carries a client conditional header: %v [%s]", o.N, desc, condHdrs(o.Hdr), pd)
-			}
+		// C06.b: when the stored entry is revalidated, the client's own validators do not travel in
+		// place of (or next to) the stored ones. Judged when the entry is certainly there, i.e. the
+		// first origin request of this exchange is a revalidation; what is forwarded on a plain miss
+		// is outside the statement.
+		if st.stored != nil && st.present && st.storable == storeMust && len(st.alts) == 0 && first.Marker {
+			res.violate("C06.b", "client-validator-forwarded", "origin request #%d for %s revalidates stored response #%d but carries the client's conditional header: %v [%s]", first.N, desc, st.stored.N, condHdrs(first.Hdr), pd)
 		}
 		// C06.a: a conditional request carries exactly the stored validators
 		if st.stored != nil {
@@ -549,6 +592,19 @@ func seqAbsorb(w *proxyWorld, p *ProxyPlan, st *seqState, o *OLog, ex *Exch, def
 		lo, k1 := refFreshUntil(d, st.lo, p.ForceDef, def, p.IgnoreCC)
 		hi, k2 := refFreshUntil(d, st.hi, p.ForceDef, def, p.IgnoreCC)
 		st.freshLo, st.freshHi, st.freshKnown = lo, hi, k1 && k2
+	case o.Status == 200 && o.Method == "GET":
+		// a full answer to a request that carried Range: the statement does not say whether it is stored
+		st.alts = append(st.alts, st.stored)
+		st.stored = o
+		st.lo, st.hi = o.T, ex.RecvT
+		if ex.RecvT.IsZero() {
+			st.hi = o.T
+		}
+		if st.times == nil {
+			st.times = map[int]seqTimes{}
+		}
+		st.times[o.N] = seqTimes{st.lo, st.hi}
+		st.storable, st.freshKnown, st.renewed304 = storeMay, false, false
 	case o.Status == 304 && st.stored != nil:
 		st.freshLo = o.T.Add(def)
 		hi := ex.RecvT
